@@ -811,14 +811,19 @@ def run(ctx):
         '(5 hand-reviewed statements in the optimizers, matched by exact text)',
         'calls from one registered method to another registered method are assumed not to write their arguments '
         '(the theorem itself, one call level down)',
-        'decorator plumbing (_register.inner, _class_wrapper) is modelled by hand in C13/Model.v (wrapper_y) and validated '
-        'dynamically with np.shares_memory; numba kernels are analysed from their Python source',
+        'the decorator closures (_register.inner, _class_wrapper.inner) and _return_results are analysed statically like every '
+        'other body (C13_wrappers_checked); the hand alias model C13/Model.v is an exact refinement validated with np.shares_memory; '
+        'numba kernels are analysed from their Python source',
+        'cross-call aliasing: persistent attributes are classified fresh / possibly caller-owned by a greatest fixpoint in the '
+        'translator, re-checked in Coq (assertions after every store, guarded-attribute table); the induction over call '
+        'histories is argued, not mechanised; attribute names are identified across classes (coarser, sound); setattr/__dict__ '
+        'are not modelled',
         'object-dtype arrays, ndarray subclasses, non-native byte order and memory-overlapping caller arguments are outside the model',
     ]
     ctx.gate()
     ctx.translate(['GenWrites'])
     ok = ctx.build_props()
-    if not ok and any('Table' in n or 'gen_writes_ok' in n for n, _ in ctx.broken):
+    if not ok and any('gen_writes_ok' in n for n, _ in ctx.broken):
         ctx.broke('writes_ok:offending-sites', diagnose_table(ctx))
     # recorded findings: bodies the generator moved to `known_bad`
     try:
